@@ -50,6 +50,18 @@ CHECKS = {
         note="x/y of the outermost svg are not generated; irregular whitespace inside preserveAspectRatio is outside the quantifier; tolerance is the 12-decimal text of the transform string.",
         ref="5/C11",
     ),
+    "C05": dict(
+        technique="property-based testing: arcs constructed around the radius-scaling boundary against an F.6.5/F.6.6 reference and the implicit ellipse equation",
+        text="Endpoint-form arcs built by construction (radii as lambda x chord/2 with lambda far below, just around, exactly at and far above 1; rotations incl. multiples of 90 and beyond +-360; all flag pairs; negative, zero radii; coincident endpoints) through Arc(...) and Path('M.. A..'): exact endpoints, every sampled point equal to the reference point and on the reference ellipse, sweep sign/extent vs flags, radii, rotation, and the degenerate cases as chord / nothing. Exploration.",
+        note="Reference in harness/ref/arcref.py from the SVG implementation notes; tolerance 1e-9 scale-relative plus the (rmax/rmin)^2 conditioning term, 1e-6 on the exact-fit/scaled-up class where the library takes the square root of a rounding-noise radicand.",
+        ref="5/C05",
+    ),
+    "C02": dict(
+        technique="property-based testing: segment/path/shape x matrix-class products with the matrix applied independently to sampled points (metamorphic), incl. composition and Subpath windows",
+        text="Every segment kind (incl. degenerate Beziers, endpoint- and centre-form arcs up to beyond a full turn) x 10 matrix classes (identity .. shear .. general with negative determinant, condition <= 400): (X*M).point(t), stored points, arc orientation, (X*A)*B = X*(A*B); paths via abs(path*M), *= then reify, lazy segments, Subpath *= M window; shapes via (shape*M).segments(), abs(Path(shape)*M), Path(shape)*M;reify. Every (kind x class) cell must be non-empty. Exploration.",
+        note="The original's points are the library's untransformed point(t); the matrix is applied by harness arithmetic. Circle/Ellipse own transformed decomposition under non-conformal matrices is the known finding KF-ROUNDSHAPE-TRANSFORMED (pinned by a test).",
+        ref="5/C02",
+    ),
 }
 
 REASON_PENDING = "no check registered yet in this build; the design (DESIGN.md section 5) covers it with property-based testing"
